@@ -1,97 +1,8 @@
-import TracklibVerif.Lemmas.TextIOFile
+import TracklibVerif.Lemmas.TextIOSci
 /-! WKT export / parse (core only): `Track.toWKT` → `TrackReader.parseWkt`, and the vertex list shared with
-`wktLineStringToObs`. -/
+`wktLineStringToObs`. Ordinates are printed by `str(float)` over its whole range (`reprFloat`: positional or exponent
+notation); `parseWkt` upper-cases the text first, so it meets the marker `E` where the network reader meets `e`. -/
 namespace TV.TextIO
-
-/-! ### `repr` of a lattice float -/
-
-theorem trimFrac_spec (d f : Nat) : (trimFrac d f).1 ≤ d ∧ f = (trimFrac d f).2 * 10 ^ (d - (trimFrac d f).1) := by
-  induction d, f using trimFrac.induct with
-  | case1 f => simp [trimFrac]
-  | case2 f => simp [trimFrac]
-  | case3 d f h ih =>
-    unfold trimFrac
-    simp only [h, ↓reduceIte]
-    refine ⟨by omega, ?_⟩
-    have e : d + 2 - (trimFrac (d + 1) (f / 10)).1 = (d + 1 - (trimFrac (d + 1) (f / 10)).1) + 1 := by omega
-    rw [e, Nat.pow_succ, ← Nat.mul_assoc, ← ih.2]
-    omega
-  | case4 d f h =>
-    unfold trimFrac
-    simp [h]
-
-theorem trimFrac_lt (d f : Nat) (h : f < 10 ^ d) : (trimFrac d f).2 < 10 ^ (trimFrac d f).1 := by
-  have hs := trimFrac_spec d f
-  have hp : 10 ^ d = 10 ^ (trimFrac d f).1 * 10 ^ (d - (trimFrac d f).1) := by
-    rw [← Nat.pow_add]; congr 1; omega
-  rw [hp] at h
-  have hpos : 0 < 10 ^ (d - (trimFrac d f).1) := Nat.pow_pos (by decide)
-  have : (trimFrac d f).2 * 10 ^ (d - (trimFrac d f).1) < 10 ^ (trimFrac d f).1 * 10 ^ (d - (trimFrac d f).1) := by
-    rw [← hs.2]; exact h
-  exact Nat.lt_of_mul_lt_mul_right this
-
-/-- what `float()` returns for `str(n / 10^d)`: the mantissa without the trailing zeros of the decimals -/
-def reprVal (d : Nat) (n : Int) : Dec :=
-  let t := trimFrac d (n.natAbs % 10 ^ d)
-  let m : Int := ((n.natAbs / 10 ^ d * 10 ^ t.1 + t.2 : Nat) : Int)
-  (if n < 0 then -m else m, t.1)
-
-/-- the value read back is the value written: `mantissa · 10^(d - decimals) = n` -/
-theorem reprVal_value (d : Nat) (n : Int) : (reprVal d n).2 ≤ d ∧ (reprVal d n).1 * 10 ^ (d - (reprVal d n).2) = n := by
-  have hs := trimFrac_spec d (n.natAbs % 10 ^ d)
-  refine ⟨hs.1, ?_⟩
-  unfold reprVal
-  simp only
-  generalize trimFrac d (n.natAbs % 10 ^ d) = t at hs
-  have key : (n.natAbs / 10 ^ d * 10 ^ t.1 + t.2) * 10 ^ (d - t.1) = n.natAbs := by
-    rw [Nat.add_mul, Nat.mul_assoc, ← Nat.pow_add, ← hs.2]
-    have : t.1 + (d - t.1) = d := by omega
-    rw [this, Nat.mul_comm]
-    exact Nat.div_add_mod _ _
-  by_cases hn : n < 0
-  · simp only [hn, ↓reduceIte, Int.neg_mul]
-    have : (((n.natAbs / 10 ^ d * 10 ^ t.1 + t.2 : Nat) : Int)) * 10 ^ (d - t.1) = (n.natAbs : Int) := by
-      exact_mod_cast key
-    rw [this]; omega
-  · simp only [hn, ↓reduceIte]
-    have : (((n.natAbs / 10 ^ d * 10 ^ t.1 + t.2 : Nat) : Int)) * 10 ^ (d - t.1) = (n.natAbs : Int) := by
-      exact_mod_cast key
-    rw [this]; omega
-
-theorem parseDec_reprDec (d : Nat) (n : Int) : parseDec? (reprDec d n) = some (reprVal d n) := by
-  unfold reprDec reprVal
-  simp only
-  have hlt := trimFrac_lt d (n.natAbs % 10 ^ d) (Nat.mod_lt _ (Nat.pow_pos (by decide)))
-  generalize trimFrac d (n.natAbs % 10 ^ d) = t at hlt
-  have h := parseDec_core (decide (n < 0)) (natStr (n.natAbs / 10 ^ d)) (padDigits t.1 t.2) (n.natAbs / 10 ^ d) t.2
-    (natStr_digits _) (natStr_ne_nil _) (padDigits_digits _ _)
-    (by rw [parseNatAux_natStr]; simp) (by rw [parseNatAux_padDigits, Nat.mod_eq_of_lt hlt]; simp)
-  simp only [decide_eq_true_eq, padDigits_length] at h
-  exact h
-
-theorem reprDec_numChar (d : Nat) (n : Int) : ∀ c ∈ reprDec d n, numChar c = true := by
-  intro c hc
-  unfold reprDec at hc
-  simp only [List.mem_append, List.mem_singleton] at hc
-  unfold numChar
-  rcases hc with ((hc | hc) | hc) | hc
-  · have : c = '-' := by split at hc <;> simp at hc; exact hc
-    subst this; decide
-  · simp [natStr_digits _ c hc]
-  · subst hc; decide
-  · simp [padDigits_digits _ _ c hc]
-
-theorem reprDec_ne_nil (d : Nat) (n : Int) : reprDec d n ≠ [] := by
-  unfold reprDec
-  have := natStr_ne_nil (n.natAbs / 10 ^ d)
-  split <;> simp [this]
-
-/-! ### a vertex, the vertex list -/
-
-def vertexStr (d : Nat) (p : Pt) : Str := reprDec d p.1 ++ [' '] ++ reprDec d p.2
-
-/-- the vertex as it is parsed back -/
-def expVertex (d : Nat) (p : Pt) : Dec × Dec × Dec := (reprVal d p.1, reprVal d p.2, (0, 0))
 
 theorem numChar_ne {c x : Char} (h : numChar c = true) (hx : numChar x = false) : c ≠ x := by
   intro e; rw [e, hx] at h; exact absurd h (by decide)
@@ -99,46 +10,78 @@ theorem numChar_ne {c x : Char} (h : numChar c = true) (hx : numChar x = false) 
 theorem not_mem_of_numChar (s : Str) (h : ∀ c ∈ s, numChar c = true) (x : Char) (hx : numChar x = false) : x ∉ s :=
   fun hm => numChar_ne (h x hm) hx rfl
 
-theorem vertexStr_chars (d : Nat) (p : Pt) : ∀ c ∈ vertexStr d p, numChar c = true ∨ c = ' ' := by
-  intro c hc
-  unfold vertexStr at hc
-  simp only [List.mem_append, List.mem_singleton] at hc
-  rcases hc with (hc | hc) | hc
-  · exact Or.inl (reprDec_numChar _ _ c hc)
-  · exact Or.inr hc
-  · exact Or.inl (reprDec_numChar _ _ c hc)
-
 theorem strip_numStr (s : Str) (hne : s ≠ []) (h : ∀ c ∈ s, numChar c = true) : strip s = s :=
   strip_eq_self s (fun c hc => (numChar_not_ws (h c (List.mem_of_mem_head? hc))).1)
     (fun c hc => (numChar_not_ws (h c (List.mem_of_getLast? hc))).1)
 
-theorem parseVertex_vertexStr (d : Nat) (p : Pt) : parseVertex (vertexStr d p) = .ok (expVertex d p) := by
+/-! ### the characters of an ordinate -/
+
+theorem expChar_cases {ec : Char} (h : isExpChar ec = true) : ec = 'e' ∨ ec = 'E' := by
+  unfold isExpChar at h
+  simpa using h
+
+theorem reprFloat_avoids (ec : Char) (d : Nat) (v : SNum) (x : Char) (hx : numChar x = false) (h1 : x ≠ ec) (h2 : x ≠ '+') :
+    x ∉ reprFloat ec d v := by
+  intro hm
+  rcases reprFloat_chars ec d v x hm with h | h | h
+  · rw [hx] at h; exact absurd h (by decide)
+  · exact h1 h
+  · exact h2 h
+
+theorem reprFloat_not_ws (ec : Char) (hec : isExpChar ec = true) (d : Nat) (v : SNum) :
+    ∀ c ∈ reprFloat ec d v, isWs c = false := by
+  intro c hc
+  rcases reprFloat_chars ec d v c hc with h | h | h
+  · exact (numChar_not_ws h).1
+  · subst h; rcases expChar_cases hec with rfl | rfl <;> decide
+  · subst h; decide
+
+/-! ### a vertex, the vertex list -/
+
+def vertexStr (ec : Char) (d : Nat) (p : Pt) : Str := reprFloat ec d p.1 ++ [' '] ++ reprFloat ec d p.2
+
+/-- the vertex as it is parsed back -/
+def expVertex (d : Nat) (p : Pt) : Dec × Dec × Dec := (reprValF d p.1, reprValF d p.2, (0, 0))
+
+theorem vertexStr_avoids (ec : Char) (d : Nat) (p : Pt) (x : Char) (hx : numChar x = false) (hx' : x ≠ ' ')
+    (h1 : x ≠ ec) (h2 : x ≠ '+') : x ∉ vertexStr ec d p := by
+  intro hm
+  unfold vertexStr at hm
+  simp only [List.mem_append, List.mem_singleton] at hm
+  rcases hm with (hm | hm) | hm
+  · exact reprFloat_avoids ec d p.1 x hx h1 h2 hm
+  · exact hx' hm
+  · exact reprFloat_avoids ec d p.2 x hx h1 h2 hm
+
+theorem parseVertex_vertexStr (ec : Char) (hec : isExpChar ec = true) (d : Nat) (p : Pt) :
+    parseVertex (vertexStr ec d p) = .ok (expVertex d p) := by
   unfold parseVertex
-  have hstrip : strip (vertexStr d p) = vertexStr d p := by
+  have hsp : ' ' ≠ ec := by rcases expChar_cases hec with rfl | rfl <;> decide
+  have hstrip : strip (vertexStr ec d p) = vertexStr ec d p := by
     apply strip_eq_self
     · intro c hc
-      have hne := reprDec_ne_nil d p.1
+      have hne := reprFloat_ne_nil ec d p.1
       unfold vertexStr at hc
-      cases h : reprDec d p.1 with
+      cases h : reprFloat ec d p.1 with
       | nil => exact absurd h hne
       | cons x xs =>
         rw [h] at hc; simp at hc; rw [← hc]
-        exact (numChar_not_ws (reprDec_numChar d p.1 x (by rw [h]; simp))).1
+        exact reprFloat_not_ws ec hec d p.1 x (by rw [h]; simp)
     · intro c hc
       unfold vertexStr at hc
       rw [List.getLast?_append] at hc
-      cases h : (reprDec d p.2).getLast? with
-      | none => simp at h; exact absurd h (reprDec_ne_nil d p.2)
+      cases h : (reprFloat ec d p.2).getLast? with
+      | none => simp at h; exact absurd h (reprFloat_ne_nil ec d p.2)
       | some y =>
         rw [h] at hc; simp at hc; rw [← hc]
-        exact (numChar_not_ws (reprDec_numChar d p.2 _ (List.mem_of_getLast? h))).1
-  have hsplit : splitOnChar ' ' (vertexStr d p) = [reprDec d p.1, reprDec d p.2] := by
+        exact reprFloat_not_ws ec hec d p.2 _ (List.mem_of_getLast? h)
+  have hsplit : splitOnChar ' ' (vertexStr ec d p) = [reprFloat ec d p.1, reprFloat ec d p.2] := by
     unfold vertexStr
     rw [List.append_assoc, List.singleton_append,
-      splitOnChar_append _ _ _ (not_mem_of_numChar _ (reprDec_numChar d p.1) ' ' (by decide)),
-      splitOnChar_of_not_mem _ _ (not_mem_of_numChar _ (reprDec_numChar d p.2) ' ' (by decide))]
+      splitOnChar_append _ _ _ (reprFloat_avoids ec d p.1 ' ' (by decide) hsp (by decide)),
+      splitOnChar_of_not_mem _ _ (reprFloat_avoids ec d p.2 ' ' (by decide) hsp (by decide))]
   rw [hstrip, hsplit]
-  simp [nth, parseDec_reprDec, expVertex, bind, Except.bind, pure, Except.pure]
+  simp [nth, parseDec_reprFloat ec hec, expVertex, bind, Except.bind, pure, Except.pure]
 
 /-- the coordinate list of a LINESTRING text: `wkt.split("(")[1].split(")")[0].split(",")` -/
 theorem wktCoords_eq (pre : Str) (vs : List Str) (hpre : '(' ∉ pre) (hne : vs ≠ [])
@@ -165,33 +108,36 @@ theorem wktCoords_eq (pre : Str) (vs : List Str) (hpre : '(' ∉ pre) (hne : vs 
   simp only [List.getElem?_cons_zero]
   rw [splitOnChar_joinChar _ _ hne (fun v hv' => (hv v hv').2.2)]
 
-theorem vertexStr_avoids (d : Nat) (p : Pt) (x : Char) (hx : numChar x = false) (hx' : x ≠ ' ') : x ∉ vertexStr d p := by
-  intro hm
-  rcases vertexStr_chars d p x hm with h | h
-  · rw [hx] at h; exact absurd h (by decide)
-  · exact hx' h
-
-theorem wktCoords_toWKT (d : Nat) (pts : List Pt) (hne : pts ≠ []) :
-    wktCoords (toWKT d pts) = .ok (pts.map (vertexStr d)) := by
-  unfold toWKT
-  have := wktCoords_eq "LINESTRING".toList (pts.map (vertexStr d)) (by decide) (by simpa using hne)
+theorem wktCoords_toWKT (ec : Char) (hec : isExpChar ec = true) (d : Nat) (pts : List Pt) (hne : pts ≠ []) :
+    wktCoords (toWKTE ec d pts) = .ok (pts.map (vertexStr ec d)) := by
+  unfold toWKTE
+  have hc : '(' ≠ ec ∧ ')' ≠ ec ∧ ',' ≠ ec := by rcases expChar_cases hec with rfl | rfl <;> decide
+  have := wktCoords_eq "LINESTRING".toList (pts.map (vertexStr ec d)) (by decide) (by simpa using hne)
     (by
       intro v hv
       simp only [List.mem_map] at hv
       obtain ⟨p, _, rfl⟩ := hv
-      exact ⟨vertexStr_avoids d p _ (by decide) (by decide), vertexStr_avoids d p _ (by decide) (by decide),
-        vertexStr_avoids d p _ (by decide) (by decide)⟩)
+      exact ⟨vertexStr_avoids ec d p _ (by decide) (by decide) hc.1 (by decide),
+        vertexStr_avoids ec d p _ (by decide) (by decide) hc.2.1 (by decide),
+        vertexStr_avoids ec d p _ (by decide) (by decide) hc.2.2 (by decide)⟩)
   have e : "LINESTRING(".toList = "LINESTRING".toList ++ ['('] := by decide
   rw [e]
   exact this
 
-theorem toUpper_toWKT (d : Nat) (pts : List Pt) : toUpper (toWKT d pts) = toWKT d pts := by
-  unfold toUpper
-  suffices h : ∀ c ∈ toWKT d pts, Char.toUpper c = id c by rw [List.map_congr_left h, List.map_id]
-  intro c hc
-  show c.toUpper = c
-  unfold toWKT at hc
-  simp only [List.mem_append, List.mem_singleton] at hc
+/-! ### `str.upper()` of the exported text -/
+
+theorem map_joinChar (f : Char → Char) (c : Char) (l : List Str) :
+    (joinChar c l).map f = joinChar (f c) (l.map (List.map f)) := by
+  induction l with
+  | nil => rfl
+  | cons a r ih =>
+    cases r with
+    | nil => rfl
+    | cons b r' =>
+      simp only [joinChar, List.map_append, List.map_cons] at ih ⊢
+      rw [ih]
+
+theorem toUpper_num (s : Str) (h : ∀ c ∈ s, numChar c = true) : s.map Char.toUpper = s := by
   have hnum : ∀ c, numChar c = true → c.toUpper = c := by
     intro c h
     unfold numChar at h
@@ -200,36 +146,160 @@ theorem toUpper_toWKT (d : Nat) (pts : List Pt) : toUpper (toWKT d pts) = toWKT 
     · exact (digit_of_digitVal h).2.2.2.2
     · subst h; decide
     · subst h; decide
-  rcases hc with (hc | hc) | hc
-  · have : ∀ c ∈ "LINESTRING(".toList, c.toUpper = c := by decide
-    exact this c hc
-  · rcases mem_joinChar hc with h | ⟨v, hv, hx⟩
-    · subst h; decide
-    · simp only [List.mem_map] at hv
-      obtain ⟨p, _, rfl⟩ := hv
-      rcases vertexStr_chars d p c hx with h | h
-      · exact hnum c h
-      · subst h; decide
-  · subst hc; decide
+  have : ∀ c ∈ s, Char.toUpper c = id c := fun c hc => hnum c (h c hc)
+  rw [List.map_congr_left this, List.map_id]
+
+/-- `str.upper()` of an ordinate only changes the exponent marker -/
+theorem toUpper_reprFloat (d : Nat) (v : SNum) : (reprFloat 'e' d v).map Char.toUpper = reprFloat 'E' d v := by
+  unfold reprFloat
+  split
+  · rw [show (if v.neg then ['-'] else []) ++ sciMant (stripZeros v.mag) = sciHead v.neg (stripZeros v.mag) from rfl]
+    rw [List.map_append, toUpper_num _ (sciHead_numChar _ _)]
+    congr 1
+    unfold expText
+    rw [List.map_append, toUpper_num (zpad 2 _) (fun c hc => by unfold numChar; simp [zpad_digits _ _ c hc])]
+    congr 1
+    split <;> decide
+  · split
+    · exact toUpper_num _ (reprDecS_numChar _ _)
+    · exact toUpper_num _ (reprDecS_numChar _ _)
+
+theorem toUpper_toWKT (d : Nat) (pts : List Pt) : toUpper (toWKT d pts) = toWKTE 'E' d pts := by
+  unfold toUpper toWKT toWKTE
+  rw [List.map_append, List.map_append, map_joinChar, List.map_map]
+  have e1 : "LINESTRING(".toList.map Char.toUpper = "LINESTRING(".toList := by decide
+  have e2 : [')'].map Char.toUpper = [')'] := by decide
+  have e3 : Char.toUpper ',' = ',' := by decide
+  rw [e1, e2, e3]
+  congr 3
+  apply List.map_congr_left
+  intro p _
+  simp only [Function.comp, List.map_append, toUpper_reprFloat]
+  rfl
 
 /-- **T4 `wkt_roundtrip`** (model level) -/
 theorem wkt_roundtrip (d : Nat) (pts : List Pt) (hne : pts ≠ []) :
     parseWkt (toWKT d pts) = .ok (pts.map (expVertex d)) := by
   unfold parseWkt
   rw [toUpper_toWKT]
-  have htake : ((toWKT d pts).take 4 == "LINE".toList) = true := by
-    unfold toWKT
+  have htake : ((toWKTE 'E' d pts).take 4 == "LINE".toList) = true := by
+    unfold toWKTE
     have e : "LINESTRING(".toList = ['L', 'I', 'N', 'E'] ++ "STRING(".toList := by decide
     have e2 : "LINE".toList = ['L', 'I', 'N', 'E'] := by decide
     rw [e, e2]
     simp
-  have hpoly : ((toWKT d pts).take 4 == "POLY".toList) = false := by
-    unfold toWKT
+  have hpoly : ((toWKTE 'E' d pts).take 4 == "POLY".toList) = false := by
+    unfold toWKTE
     have e : "LINESTRING(".toList = ['L', 'I', 'N', 'E'] ++ "STRING(".toList := by decide
     rw [e]
     simp
-  simp only [hpoly, Bool.false_eq_true, htake, ↓reduceIte, wktCoords_toWKT d pts hne, bind, Except.bind]
-  have h := mapM_ok (fun p : Pt => parseVertex (vertexStr d p)) (expVertex d) pts (fun p _ => parseVertex_vertexStr d p)
+  simp only [hpoly, Bool.false_eq_true, htake, ↓reduceIte, wktCoords_toWKT 'E' (by decide) d pts hne, bind, Except.bind]
+  have h := mapM_ok (fun p : Pt => parseVertex (vertexStr 'E' d p)) (expVertex d) pts
+    (fun p _ => parseVertex_vertexStr 'E' (by decide) d p)
+  rw [List.mapM_map]
+  exact h
+
+/-! ### POLYGON texts -/
+
+theorem splitOn2_of_not_mem (a b : Char) (s : Str) (h : a ∉ s) : splitOn2 a b s = [s] := by
+  induction s using splitOn2.induct a b with
+  | case1 => rfl
+  | case2 x => rfl
+  | case3 x y r hc ih =>
+    exact absurd hc.1 (fun e => h (by simp [e]))
+  | case4 x y r hc hnil ih =>
+    have := ih (fun hm => h (by simp [hm]))
+    rw [hnil] at this
+    exact absurd this (by simp)
+  | case5 x y r hc hd tl heq ih =>
+    have := ih (fun hm => h (by simp [hm]))
+    rw [heq] at this
+    simp only [List.cons.injEq] at this
+    unfold splitOn2
+    simp only [hc, ↓reduceIte, heq]
+    rw [this.1, this.2]
+
+theorem splitOn2_append (a b : Char) (p r : Str) (h : a ∉ p) : splitOn2 a b (p ++ a :: b :: r) = p :: splitOn2 a b r := by
+  induction p with
+  | nil => simp [splitOn2]
+  | cons x p' ih =>
+    have hx : x ≠ a := fun e => h (by simp [e])
+    have ih' := ih (fun hm => h (by simp [hm]))
+    obtain ⟨y, rest, hy⟩ : ∃ y rest, p' ++ a :: b :: r = y :: rest := by
+      cases p' with
+      | nil => exact ⟨a, b :: r, rfl⟩
+      | cons z zs => exact ⟨z, zs ++ a :: b :: r, rfl⟩
+    rw [List.cons_append, hy]
+    have hc : ¬ (x = a ∧ y = b) := fun c => hx c.1
+    conv => lhs; unfold splitOn2
+    simp only [hc, ↓reduceIte]
+    rw [← hy, ih']
+
+/-- a polygon in the canonical layout `POLYGON((x y,x y,…))` (one ring), as other tools write it -/
+def toPolyWKT (ec : Char) (d : Nat) (pts : List Pt) : Str :=
+  "POLYGON((".toList ++ joinChar ',' (pts.map (vertexStr ec d)) ++ "))".toList
+
+theorem wktCoordsPoly_toPolyWKT (ec : Char) (hec : isExpChar ec = true) (d : Nat) (pts : List Pt) (hne : pts ≠ []) :
+    wktCoordsPoly (toPolyWKT ec d pts) = .ok (pts.map (vertexStr ec d)) := by
+  have hc : '(' ≠ ec ∧ ')' ≠ ec ∧ ',' ≠ ec := by rcases expChar_cases hec with rfl | rfl <;> decide
+  have hv : ∀ v ∈ pts.map (vertexStr ec d), '(' ∉ v ∧ ')' ∉ v ∧ ',' ∉ v := by
+    intro v hv
+    simp only [List.mem_map] at hv
+    obtain ⟨p, _, rfl⟩ := hv
+    exact ⟨vertexStr_avoids ec d p _ (by decide) (by decide) hc.1 (by decide),
+      vertexStr_avoids ec d p _ (by decide) (by decide) hc.2.1 (by decide),
+      vertexStr_avoids ec d p _ (by decide) (by decide) hc.2.2 (by decide)⟩
+  have hb1 : '(' ∉ joinChar ',' (pts.map (vertexStr ec d)) ++ "))".toList := by
+    intro hm
+    rcases List.mem_append.1 hm with hm | hm
+    · rcases mem_joinChar hm with h | ⟨v, hv', hx⟩
+      · exact absurd h (by decide)
+      · exact (hv v hv').1 hx
+    · revert hm; decide
+  have hb2 : ')' ∉ joinChar ',' (pts.map (vertexStr ec d)) := by
+    intro hm
+    rcases mem_joinChar hm with h | ⟨v, hv', hx⟩
+    · exact absurd h (by decide)
+    · exact (hv v hv').2.1 hx
+  unfold wktCoordsPoly toPolyWKT
+  have e1 : "POLYGON((".toList ++ joinChar ',' (pts.map (vertexStr ec d)) ++ "))".toList
+      = "POLYGON".toList ++ '(' :: '(' :: (joinChar ',' (pts.map (vertexStr ec d)) ++ "))".toList) := by
+    have : "POLYGON((".toList = "POLYGON".toList ++ ['(', '('] := by decide
+    rw [this]; simp
+  rw [e1, splitOn2_append _ _ _ _ (by decide), splitOn2_of_not_mem _ _ _ hb1]
+  simp only [nth, List.getElem?_cons_succ, List.getElem?_cons_zero, bind, Except.bind, pure, Except.pure]
+  have e2 : joinChar ',' (pts.map (vertexStr ec d)) ++ "))".toList = joinChar ',' (pts.map (vertexStr ec d)) ++ ')' :: ')' :: [] := rfl
+  rw [e2, splitOn2_append _ _ _ _ hb2]
+  simp only [List.getElem?_cons_zero]
+  rw [splitOnChar_joinChar _ _ (by simpa using hne) (fun v hv' => (hv v hv').2.2)]
+
+theorem toUpper_toPolyWKT (d : Nat) (pts : List Pt) : toUpper (toPolyWKT 'e' d pts) = toPolyWKT 'E' d pts := by
+  unfold toUpper toPolyWKT
+  rw [List.map_append, List.map_append, map_joinChar, List.map_map]
+  have e1 : "POLYGON((".toList.map Char.toUpper = "POLYGON((".toList := by decide
+  have e2 : "))".toList.map Char.toUpper = "))".toList := by decide
+  have e3 : Char.toUpper ',' = ',' := by decide
+  rw [e1, e2, e3]
+  congr 3
+  apply List.map_congr_left
+  intro p _
+  simp only [Function.comp, vertexStr, List.map_append, toUpper_reprFloat]
+  rfl
+
+/-- a one-ring polygon text is parsed as the vertices of its ring -/
+theorem polygon_parse (d : Nat) (pts : List Pt) (hne : pts ≠ []) :
+    parseWkt (toPolyWKT 'e' d pts) = .ok (pts.map (expVertex d)) := by
+  unfold parseWkt
+  rw [toUpper_toPolyWKT]
+  have htake : ((toPolyWKT 'E' d pts).take 4 == "POLY".toList) = true := by
+    unfold toPolyWKT
+    have e : "POLYGON((".toList = ['P', 'O', 'L', 'Y'] ++ "GON((".toList := by decide
+    have e2 : "POLY".toList = ['P', 'O', 'L', 'Y'] := by decide
+    rw [e, e2]
+    simp
+  simp only [htake, ↓reduceIte, wktCoordsPoly_toPolyWKT 'E' (by decide) d pts hne, bind, Except.bind]
+  have h := mapM_ok (fun p : Pt => parseVertex (vertexStr 'E' d p)) (expVertex d) pts
+    (fun p _ => parseVertex_vertexStr 'E' (by decide) d p)
   rw [List.mapM_map]
   exact h
 
